@@ -86,9 +86,10 @@ func c15H264Train(r *fw.Rand, maxPackets int) [][]byte {
 	}
 }
 
-// c15Subsets enumerates delivery masks for a train of n packets.
-func c15Subsets(r *fw.Rand, n int) (masks []uint64, exhaustive bool) {
-	if n <= 10 {
+// c15Subsets enumerates delivery masks; trains of up to `limit` packets get all 2^n subsets
+// (10 in the quick tier, 13 in the thorough tier).
+func c15SubsetsLimit(r *fw.Rand, n, limit int) (masks []uint64, exhaustive bool) {
+	if n <= limit {
 		for m := uint64(0); m < 1<<uint(n); m++ {
 			masks = append(masks, m)
 		}
@@ -158,7 +159,11 @@ func c15Run(c *fw.Ctx, codec string, mk func() depack, frame1, frame1b, frame2 [
 		c.Fail("C15/"+codec+"/panic-on-intact-frame/"+fw.PanicFunc(st), fmt.Sprintf("the depacketizer panicked on an intact frame: %v", pv), fw.W("frame", fw.HexList(frame2), "stack", st))
 		return
 	}
-	masks, exh := c15Subsets(c.R, len(frame1))
+	limit := 10
+	if c.Tier == fw.Thorough {
+		limit = 13
+	}
+	masks, exh := c15SubsetsLimit(c.R, len(frame1), limit)
 	if exh {
 		c.Count("trains_with_all_subsets_enumerated", 1)
 	}
